@@ -478,6 +478,7 @@ def noise_home():
     return h
 
 
+_SDE_COUNTER = __import__("itertools").count()
 KNOWN_ENV = {"NO_COLOR", "TERM", "IMDL_TERM_WIDTH"}
 _ENV_INVENTORY = {}
 
@@ -524,11 +525,13 @@ def noise_env():
     configuration that ignores everything. (Added after seeded changes C05-8 and C06-7, which made the result depend on
     SOURCE_DATE_EPOCH and on the user's global gitignore.)"""
     h = noise_home()
-    e = {"SOURCE_DATE_EPOCH": "86400", "LANG": "tr_TR.UTF-8", "LC_ALL": "tr_TR.UTF-8", "COLUMNS": "37", "LINES": "9",
+    # SOURCE_DATE_EPOCH names another day in every run (1970-01-02 ... 2024): imdl does not consult it, so two runs whose results are
+    # compared must not be told apart by it (added after seeded change C19-14: a date stamp in the completion scripts)
+    e = {"SOURCE_DATE_EPOCH": str(86400 * (1 + next(_SDE_COUNTER) % 19999)), "LANG": "tr_TR.UTF-8", "LC_ALL": "tr_TR.UTF-8", "COLUMNS": "37", "LINES": "9",
          "CLICOLOR_FORCE": "1", "FORCE_COLOR": "1", "COLORTERM": "truecolor", "XDG_CONFIG_HOME": os.path.join(h, ".config"),
          "HOME": h, "USER": "nobody", "TMPDIR": tempfile.gettempdir(), "GIT_DIR": os.path.join(h, "no-such-git-dir")}
-    e.update(unknown_env())
-    return e
+    # variables the sources consult and the checks do not know; the deliberate values above win where a name is in both
+    return dict(unknown_env(), **e)
 
 
 def limited(argv, nofile=None, as_nobody=False):
